@@ -14,7 +14,7 @@ Extraction "model.ml"
   new_mult mult_next mult_reset mult_set_dir mult_done hash_ints
   get_t is_materializable requires_iterator is_cm is_nc is_tr
   guard_op flag_soundb meta_inv_obs guard_slice
-  zdot_nd zdot_nd_full zdot_nd_spec zdot_nd_spec_incr dot_nd_dispatch dot_nd_reuse_plain
+  zdot_nd zdot_nd_full zdot_nd_spec zdot_nd_spec_incr zdot_nd_spec_both dot_nd_dispatch dot_nd_reuse_plain
   step_model step_spec zstep_model zstep_spec zguard zreduce_axes_after
   empty_pstate pstep_T pstep_UT pstep_transpose p_slices obs_model inv_model obs_spec ntens_model ntens_spec empty_store empty_sstate
   shape_concat shape_repeat set_window logical
